@@ -341,9 +341,14 @@ func (g *gen) action() map[string]any {
 		if g.r.Bool() {
 			a["quick_replies"] = g.tpls(0, 3)
 			g.translate(u, "quick_replies", func() []any { return g.tpls(0, 3) })
+		} else if g.r.Chance(1, 4) {
+			// no quick replies in the base language, some in a translation: used at run time all the same
+			g.translate(u, "quick_replies", func() []any { return g.tpls(1, 2) })
 		}
 		if g.r.Chance(1, 3) {
 			a["attachments"] = []any{"image/jpeg:http://x.io/" + g.tpl()}
+			g.translate(u, "attachments", func() []any { return []any{"image/jpeg:http://x.io/" + g.tpl()} })
+		} else if g.r.Chance(1, 6) {
 			g.translate(u, "attachments", func() []any { return []any{"image/jpeg:http://x.io/" + g.tpl()} })
 		}
 		if g.r.Chance(1, 4) {
